@@ -124,7 +124,21 @@ func TestC01(t *testing.T) {
 		cl.labelIf(!c.spec.FromAlpha, "custom-offset")
 		a := drawValues(t, d, prof, n, cl)
 		s := c.new()
-		for _, v := range a.vals {
+		// queries may be interleaved with the additions: at up to two checkpoints the prefix added so far is queried and judged
+		checkpoints := map[int]bool{}
+		if n > 1 && rapid.Bool().Draw(t, "interleave") {
+			for j := 0; j < rapid.IntRange(1, 2).Draw(t, "ncheckpoints"); j++ {
+				checkpoints[rapid.IntRange(1, n-1).Draw(t, "checkpoint")] = true
+			}
+			cl.label("queries-interleaved-with-adds")
+		}
+		for i, v := range a.vals {
+			if checkpoints[i] {
+				pre := &accData{vals: a.vals[:i], cl: cl}
+				pre.finish(c.m)
+				cl.logf("queries after %d adds", i)
+				checkQuantileAccuracy(t, "C01", cl, c, s, pre, queryPoints(t, i, cl), nil)
+			}
 			cl.logf("Add(%v)", v)
 			if err := s.Add(v); err != nil {
 				t.Fatalf("C01: Add(%v) refused: %v (|v| <= MaxIndexableValue=%v)", v, err, c.m.MaxIndexableValue())
